@@ -40,6 +40,7 @@ structure VerOps where
   set : List Nat → Bytes → Bytes → List Nat × Go.Err
   vector : List Nat → Bytes
   lenVec : List Nat → Nat
+  vectorCap : List Nat → Nat
   wf : List Nat → Bool
   nomen : List Nat → Bytes
   scores : List Nat → List Nat
@@ -55,25 +56,25 @@ def o40 (l : List Nat) : O40 := ⟨l.getD 0 0, l.getD 1 0, l.getD 2 0, l.getD 3 
 def ops20 : VerOps :=
   { ver := .v20, n := 4, parse := fun s => mapRes O20.bytes (parse20 s),
     get := fun l => (o20 l).get, set := fun l a v => let r := (o20 l).set a v; (r.1.bytes, r.2),
-    vector := fun l => (o20 l).vector, lenVec := fun l => (o20 l).lenVec, wf := fun l => (o20 l).wf,
+    vector := fun l => (o20 l).vector, lenVec := fun l => (o20 l).lenVec, vectorCap := fun l => (o20 l).vectorCap, wf := fun l => (o20 l).wf,
     nomen := fun _ => [],
     scores := fun l => let c := o20 l; [c.baseScore, c.temporalScore, c.environmentalScore, c.impact, c.exploitability] }
 def ops30 : VerOps :=
   { ver := .v30, n := 6, parse := fun s => mapRes O30.bytes (parse30 s),
     get := fun l => (o30 l).get, set := fun l a v => let r := (o30 l).set a v; (r.1.bytes, r.2),
-    vector := fun l => (o30 l).vector, lenVec := fun l => (o30 l).lenVec, wf := fun l => (o30 l).wf,
+    vector := fun l => (o30 l).vector, lenVec := fun l => (o30 l).lenVec, vectorCap := fun l => (o30 l).vectorCap, wf := fun l => (o30 l).wf,
     nomen := fun _ => [],
     scores := fun l => let c := o30 l; [c.baseScore, c.temporalScore, c.environmentalScore, c.impact, c.exploitability] }
 def ops31 : VerOps :=
   { ver := .v31, n := 6, parse := fun s => mapRes O31.bytes (parse31 s),
     get := fun l => (o31 l).get, set := fun l a v => let r := (o31 l).set a v; (r.1.bytes, r.2),
-    vector := fun l => (o31 l).vector, lenVec := fun l => (o31 l).lenVec, wf := fun l => (o31 l).wf,
+    vector := fun l => (o31 l).vector, lenVec := fun l => (o31 l).lenVec, vectorCap := fun l => (o31 l).vectorCap, wf := fun l => (o31 l).wf,
     nomen := fun _ => [],
     scores := fun l => let c := o31 l; [c.baseScore, c.temporalScore, c.environmentalScore, c.impact, c.exploitability] }
 def ops40 : VerOps :=
   { ver := .v40, n := 9, parse := fun s => mapRes O40.bytes (parse40 s),
     get := fun l => (o40 l).get, set := fun l a v => let r := (o40 l).set a v; (r.1.bytes, r.2),
-    vector := fun l => (o40 l).vector, lenVec := fun l => (o40 l).lenVec, wf := fun l => (o40 l).wf,
+    vector := fun l => (o40 l).vector, lenVec := fun l => (o40 l).lenVec, vectorCap := fun l => (o40 l).vectorCap, wf := fun l => (o40 l).wf,
     nomen := fun l => (o40 l).nomenclature,
     scores := fun l => [(o40 l).score] }
 
@@ -253,14 +254,14 @@ def judgeObj (o : VerOps) (c : List Nat) (reached : Bool) (impl : String) : Verd
 
 /-- `A ver kind a1 a2 a3 | allocs` — the documented allocation budget (README: 0 to 1 allocs/op):
     a successful ParseVector ≤ 1, Vector() = 1, Get/Set on a known metric, scores, Rating, Nomenclature = 0.
-    Cost model for Vector(): one `make` of `lenVec` bytes; the appends regrow iff the text is longer. -/
+    Cost model for Vector(): one `make` with the code's own capacity (`Vector_cap`, regenerated); the appends regrow iff the text is longer. -/
 def judgeAlloc (o : VerOps) (kind a1 a2 a3 : String) (impl : String) : Verdict := Id.run do
   let n := impl.toNat!
   let mut v : Verdict := {}
   match kind with
   | "vector" =>
     let c := unhex a1
-    let fits := (o.vector c).length ≤ o.lenVec c
+    let fits := (o.vector c).length ≤ o.vectorCap c
     if fits != (n == 1) && !(n ≥ 2 && !fits) then v := { v with diff := some (if fits then "1" else ">=2") }
     if o.wf c && n != 1 then v := v.add "C17" s!"Vector() allocates {n}"
   | "parse" =>
@@ -292,6 +293,9 @@ def judge (line : String) : Verdict × String :=
     | ["O", ver, c, r] => match opsOf ver with
       | some o => (judgeObj o (unhex c) (r == "1") impl, "O" ++ ver)
       | none => ({ diff := some "BAD-OP" }, "?")
+    | ["Q", ver, _, _] =>
+      -- Go-level `==` of two objects with the same bytes, one of them after a history of non-mutating calls
+      ((if impl == "eq" then ({} : Verdict) else ({} : Verdict).add "C07" impl), "Q" ++ ver)
     | ["A", ver, kind, a1, a2, a3] => match opsOf ver with
       | some o => (judgeAlloc o kind a1 a2 a3 impl, "A" ++ ver ++ kind)
       | none => ({ diff := some "BAD-OP" }, "?")
